@@ -362,21 +362,21 @@ impl Interpreter {
                 state.stack.push_bigint(pos)?;
             }
             OpCodes::OP_NOT => {
-                let a = state.stack.pop_number()?;
+                let a = state.stack.pop_bigint()?;
 
-                let notted = match a {
-                    0 => 1,
-                    _ => 0,
+                let notted = match a == BigInt::from(0) {
+                    true => 1,
+                    false => 0,
                 };
 
                 state.stack.push_number(notted)?;
             }
             OpCodes::OP_0NOTEQUAL => {
-                let a = state.stack.pop_number()?;
+                let a = state.stack.pop_bigint()?;
 
-                let notted = match a {
-                    0 => 0,
-                    _ => 1,
+                let notted = match a == BigInt::from(0) {
+                    true => 0,
+                    false => 1,
                 };
 
                 state.stack.push_number(notted)?;
